@@ -149,6 +149,32 @@ func runPrefix(w *World, name string) {
 		for i := 1; i < len(w.reps); i++ {
 			w.Step(pt.Action{Op: "sync", R: i})
 		}
+	case "deep-doc21", "deep-list21":
+		// as deep-*, but the clock of replica 0 has already reached 10*l+1 inside the prefix (l = the clock of the batch of
+		// twelve): the identifiers (l,10), (l,11) and (10l+1,0) all exist in the state every replica starts from, so that
+		// an export / import happens with them present
+		lam := func() uint64 { // lamport of the operation replica 0 issued last (nothing is synced inside the prefix)
+			ops := w.Pending(0)
+			return ops[len(ops)-1].ID.Lamport
+		}
+		if name == "deep-doc21" {
+			w.Step(pt.Action{Op: "dput", R: 0, K: "a", V: "ea"})
+			w.Step(pt.Action{Op: "dins", R: 0, T: "a", P: 0, N: 12, V: "p"})
+			l := lam()
+			for lam() < 10*l {
+				w.Step(pt.Action{Op: "dput", R: 0, K: "b", V: "p"})
+			}
+			w.Step(pt.Action{Op: "dupd", R: 0, T: "a", P: 0, N: 1, V: "p"}) // the new value of slot 0 is created at (10l+1,0)
+			w.Step(pt.Action{Op: "dput", R: 0, K: "c", V: "a"})
+		} else {
+			w.Step(pt.Action{Op: "ins", R: 0, P: 0, N: 12, V: "p"})
+			l := lam()
+			for lam() < 10*l {
+				w.Step(pt.Action{Op: "upd", R: 0, P: 0, N: 1, V: "p"})
+			}
+			w.Step(pt.Action{Op: "ins1", R: 0, P: 12, V: "p"}) // created at (10l+1,0)
+		}
+		syncAll()
 	case "deep-doc":
 		w.Step(pt.Action{Op: "dput", R: 0, K: "a", V: "ea"})
 		w.Step(pt.Action{Op: "dins", R: 0, T: "a", P: 0, N: 12, V: "p"})
